@@ -45,7 +45,7 @@ const (
 
 func TestMain(m *testing.M) {
 	_ = flag.Set("logtostderr", "true") // the seaweedfs glog fork would otherwise also create log files in /tmp
-	vlib.Rule("C09: blob TTL = every unit x counts {1,2,59,255,random}; volume TTL in {none, equal, shorter, longer}; age in [0, min(2*ttl, 25y)] at least 30 s away from the expiry boundary, realised by rewriting AppendAtNs and re-mounting; client LastModified independent of the age (now, 0, up to 3 years old, in the future); compaction with both algorithms; volume expiry through CollectHeartbeat with a size limit set, on re-mounted volumes (.dat mtime = youngest append) and on fresh volumes that only received client-dated writes; filer: StorageOption{TtlSeconds:s}.ToAssignRequests for every s in 0..100000, every unit multiple +-1 up to int32 and random int32 >= 0, composed with Filer.FindEntry. Non-trivial = age within max(10% of ttl, 45 s) of the boundary, or blob and volume TTL differ, or s not a multiple of 60. Distinct = distinct canonical description.")
+	vlib.Rule("C09: blob TTL = every unit x counts {1,2,59,255,random}; volume TTL in {none, equal, shorter, longer}; age in [0, min(2*ttl, 25y)] at least 30 s away from the expiry boundary, realised by rewriting AppendAtNs and re-mounting; client LastModified independent of the age (now, 0, up to 3 years old, in the future); compaction with both algorithms; volume expiry through CollectHeartbeat with a size limit set, on re-mounted volumes (.dat mtime = youngest append) and on fresh volumes that only received client-dated writes; filer: StorageOption{TtlSeconds:s}.ToAssignRequests for every s in 0..100000, every unit multiple +-1 up to int32 and random int32 >= 0, composed with Filer.FindEntry. Also: every count 1..255 of every unit (own and inherited ttl) at ages 0, 1y, 5y, 24y, ttl-31s, ttl+31s; and write/age/re-write (identical, new data, new name)/age histories on one file id, the lifetime counting from the last acknowledged write, with optional compaction. Non-trivial = age within max(10% of ttl, 45 s) of the boundary, or blob and volume TTL differ, or ttl >= 2^32 s, or a re-write that refreshed the lifetime after the first copy's ttl had elapsed, or s not a multiple of 60. Distinct = distinct canonical description.")
 	vlib.Assume("Only version-3 volumes (AppendAtNs trailer). Needles are built like needle.CreateNeedleFromRequest builds them (LastModified flag always set; TTL flag set iff a TTL was given). Wall clock: time.Now() is read by the code under test; 30 s margins plus a 15 s slow-case discard.")
 	vlib.Assume("Documented precondition (wiki 'Store file with a Time To Live'): the volume TTL should be equal to or larger than the file TTL. With a shorter volume TTL only the read path is judged, not compaction or volume expiry.")
 	vlib.Main(m)
@@ -141,12 +141,29 @@ func (s ttlSpec) seconds() int64 {
 	return int64(s.count) * unitMinutes[s.unit] * 60
 }
 
+// genTTL: every unit with boundary counts and the whole count range 1..255;
+// one branch in four draws long TTLs (the largest units with large counts, in
+// particular years above 136, where minutes*60 no longer fits 32 bits).
 func genTTL() *rapid.Generator[ttlSpec] {
-	return rapid.Custom(func(t *rapid.T) ttlSpec {
-		u := rapid.SampledFrom(unitChars).Draw(t, "unit")
-		c := rapid.OneOf(rapid.SampledFrom([]int{1, 2, 59, 255}), rapid.IntRange(1, 255)).Draw(t, "count")
-		return ttlSpec{c, u}
-	})
+	return rapid.OneOf(
+		rapid.Custom(func(t *rapid.T) ttlSpec {
+			u := rapid.SampledFrom(unitChars).Draw(t, "unit")
+			c := rapid.OneOf(rapid.SampledFrom([]int{1, 2, 59, 255}), rapid.IntRange(1, 255)).Draw(t, "count")
+			return ttlSpec{c, u}
+		}),
+		rapid.Custom(func(t *rapid.T) ttlSpec {
+			u := rapid.SampledFrom(unitChars).Draw(t, "unit")
+			c := rapid.SampledFrom([]int{1, 3, 10, 60, 100, 127, 128, 136, 137, 138, 150, 170, 190, 200, 254, 255}).Draw(t, "countFromList")
+			return ttlSpec{c, u}
+		}),
+		rapid.Custom(func(t *rapid.T) ttlSpec {
+			u := rapid.SampledFrom(unitChars).Draw(t, "unit")
+			return ttlSpec{256 - rapid.IntRange(1, 255).Draw(t, "countFromTop"), u}
+		}),
+		rapid.Custom(func(t *rapid.T) ttlSpec {
+			return ttlSpec{rapid.SampledFrom([]int{136, 137, 138, 140, 145, 150, 160, 175, 190, 200, 230, 255}).Draw(t, "longYears"), "y"}
+		}),
+	)
 }
 
 // all 1530 count/unit pairs sorted by duration, to pick a strictly shorter / longer one
@@ -215,6 +232,20 @@ func genAge(ttl int64) *rapid.Generator[int64] {
 		}
 		gens = append(gens, rapid.Int64Range(ttl+margin, hi)) // just expired
 		gens = append(gens, rapid.Int64Range(ttl+margin, limit))
+	}
+	// large absolute ages (whole years plus a bit), whatever the ttl is
+	var years []int64
+	for _, y := range []int64{1, 2, 3, 5, 8, 13, 20, 24} {
+		a := y * 365 * 86400
+		if a+86400 <= limit && (a+86400 < ttl-margin || a > ttl+margin) {
+			years = append(years, a)
+		}
+	}
+	if len(years) > 0 {
+		ys := rapid.SampledFrom(years)
+		gens = append(gens, rapid.Custom(func(t *rapid.T) int64 {
+			return ys.Draw(t, "ageYears") + rapid.Int64Range(0, 86399).Draw(t, "ageJitter")
+		}))
 	}
 	return rapid.OneOf(gens...)
 }
@@ -505,7 +536,7 @@ func TestPropTtlReadAndCompaction(t *testing.T) {
 		nt := rel != "equal" && rel != "blob-inherits"
 		var d []string
 		for _, b := range blobs {
-			if b.effTTL > 0 && nearBoundary(b.age, b.effTTL) {
+			if b.effTTL > 0 && nearBoundary(b.age, b.effTTL) || b.effTTL >= 1<<32 {
 				nt = true
 			}
 			st := "alive"
